@@ -111,9 +111,9 @@ class CompGen:
         return f"[{elt} for {t} in {it}{ifs}]"
 
 
-def pyvalue(text, data_event):
+def pyvalue(text, data_event, extra=None):
     try:
-        return ("ok", norm(eval(text, {"__builtins__": {"len": len}, "j": 5, "t": 7, "k": 9})(data_event)))
+        return ("ok", norm(eval(text, {"__builtins__": {"len": len}, "j": 5, "t": 7, "k": 9, **(extra or {})})(data_event)))
     except Exception as e:
         return ("pyerr", f"{type(e).__name__}: {e}")
 
@@ -122,7 +122,7 @@ def has_comp(a):
     return any(isinstance(n, (ast.ListComp, ast.GeneratorExp)) for n in astx.walk_nodes(a))
 
 
-def judge_comp(ctx, text, feats, data, how, lowered):
+def judge_comp(ctx, text, feats, data, how, lowered, extra=None):
     """text = 'lambda e: <expr>'; lowered = the ast.Lambda after the library's lowering"""
     key = f"{how}|{text}"
     nt = bool(feats)
@@ -133,7 +133,7 @@ def judge_comp(ctx, text, feats, data, how, lowered):
         ctx.violation("comprehension-not-lowered", f"{how}: {text} still holds a comprehension: {astx.unparse(lowered)[:200]}", witness)
         return
     for ev in data:
-        exp = pyvalue(text, ev)
+        exp = pyvalue(text, ev, extra)
         if exp[0] != "ok":
             ctx.count("trivial:python-side-raised")
             continue
@@ -206,7 +206,21 @@ def comp_cases(ctx, rnd, n):
                 feats = set(feats) | {"captured-global-named-like-a-target"}
         batch2.append((t, feats))
     batch = batch2
-    src = modgen.DS_HEADER + "j = 5\nt = 7\nk = 9\n" + "".join(f"def c{i}(ds):\n    return ds.Select({t})\n" for i, (t, _) in enumerate(batch))
+    # one-line helpers whose body is a comprehension over the helper's own parameter (the loop variable may re-use the parameter's
+    # name: python evaluates the first iterable in the enclosing scope), called from comprehensions / nested lambdas
+    helpers, hsrc = [], ""
+    for hi in range(3):
+        hp = rnd.choice(["jet", "j", "t", "a", "q"])
+        hg = CompGen(rnd)
+        hg.target = lambda env, hp=hp, hg=hg: hp if rnd.random() < 0.6 else rnd.choice(["j", "t", "k", "w"])  # noqa
+        hbody = hg.comp({hp: "Jet"}, rnd.randint(0, 1), kind="list")
+        hsrc += f"def hc{hi}({hp}): return {hbody}\n"
+        helpers.append(f"hc{hi}")
+    for hi, hname in enumerate(helpers):
+        v = rnd.choice(["j", "q", "jet", "t"])
+        form = rnd.choice([f"lambda e: [{hname}({v}) for {v} in e.jets]", f"lambda e: e.jets.Select(lambda {v}: {hname}({v}))", f"lambda e: [({v}.pt, {hname}({v})) for {v} in e.jets if len({hname}({v})) >= 0]", f"lambda e: {hname}(e.jets[0])"])
+        batch.append((form, {"helper-with-comprehension-over-its-parameter"}))
+    src = modgen.DS_HEADER + "j = 5\nt = 7\nk = 9\n" + hsrc + "".join(f"def c{i}(ds):\n    return ds.Select({t})\n" for i, (t, _) in enumerate(batch))
     try:
         m = modgen.load(src, "c06")
     except SyntaxError:
@@ -216,7 +230,7 @@ def comp_cases(ctx, rnd, n):
     for i, (t, feats) in enumerate(batch):
         try:
             s = getattr(m, f"c{i}")(mds)
-            judge_comp(ctx, t, feats, data, "Select(callable)", s.query_ast.args[1])
+            judge_comp(ctx, t, feats, data, "Select(callable)", s.query_ast.args[1], {h: getattr(m, h) for h in helpers})
         except Exception as e:
             ctx.case("callable|" + t, True)
             ctx.violation(f"exc:{type(e).__name__}:Select-callable", f"{t}: {type(e).__name__}: {str(e)[:160]}", {"lambda": t, "how": "Select(callable)"})
@@ -259,6 +273,13 @@ def make_class(rnd, i):
             if pos < nf - ndef:
                 fields = [f if len(f) == 3 else (f[0], f[1], dataclasses.field(default=1.5)) if k > pos else f for k, f in enumerate(fields)]
                 ndef = sum(1 for f in fields if len(f) == 3 and f[0] != "derived_")
+        if 0.4 <= flavour < 0.55:
+            # an InitVar pseudo-field: a constructor parameter that dataclasses.fields() does not list, anywhere in the field list
+            pos = rnd.randint(0, len(fields))
+            iv = ("scale_", dataclasses.InitVar[float]) if pos < nf - ndef else ("scale_", dataclasses.InitVar[float], dataclasses.field(default=7.0))
+            fields.insert(pos, iv)
+            cls = dataclasses.make_dataclass(f"DC{i}", fields)
+            return cls, names[:pos] + ["scale_"] + names[pos:], ndef + (1 if len(iv) == 3 else 0), "dataclass-initvar"
         cls = dataclasses.make_dataclass(f"DC{i}", fields)
         if 0.25 <= flavour < 0.4 and nf >= 2:
             # keyword-only field declared first: signature order differs from field order
@@ -350,6 +371,12 @@ def ctor_case(ctx, rnd, i):
         return
     got_keys = [k.value if isinstance(k, ast.Constant) else "<non-constant>" for k in d.keys]
     exp_keys = list(bound.arguments.keys())
+    if kind == "dataclass-initvar":
+        # the pseudo-field is a constructor parameter but not a field: whether it shows up as a key is not judged, the binding
+        # of every real field is
+        keep = [(k, v) for k, v in zip(got_keys, d.values) if k != "scale_"]
+        got_keys, d = [k for k, _ in keep], ast.Dict(keys=[ast.Constant(value=k) for k, _ in keep], values=[v for _, v in keep])
+        exp_keys = [k for k in exp_keys if k != "scale_"]
     if got_keys != exp_keys:
         ctx.violation("constructor-keys-differ", f"{text}: dict keys {got_keys}, python binds {exp_keys}", witness)
         return
